@@ -64,6 +64,14 @@ CHECKS = {
   "The client half (Connect adopts min msize / dialect) is checked by the clntlab engine cases.",
   "one Tversion per connection; trusts the wire codec",
   "DESIGN.md §5 C12"),
+ "C13": ("srvlab+clntlab", "exploration",
+  "differential runtime monitor: one fixed byte stream replayed under enumerated and random transport segmentations, each run judged against the independent decoding of the stream",
+  "Server: request streams of ~44 x msize bytes (msize 64..4096, frames from 9 bytes to exactly msize, one shared-tag group) are delivered all at once, byte by byte, split at every single offset "
+  "(small msize) or around every size prefix, and in random multi-way splits; writes are held in the implementation until the stream has been delivered. Every frame must produce exactly the "
+  "invocation (arguments, late payload hash) and the reply bytes the reference decoding predicts. Client: a fixed reply stream for a fixed call script under the same families of cuts must give identical "
+  "call results. Held on the segmentations run.",
+  "requests of the measured stream are mutually independent; trusts the wire codec and the scripted implementation/peer",
+  "DESIGN.md §5 C13"),
  "C04": ("srvlab", "exploration",
   "online reference-model monitor: every request/reply of sequential histories judged against an executable fid-table model, plus invocation/FidDestroy log of a scripted implementation",
   "The real server framework runs in-process with a scripted implementation over scripted in-memory connections; each step of (a) all (fid state x request x outcome) transitions on fresh "
